@@ -8,7 +8,9 @@ import (
 )
 
 // PAIR(intern): the interning idiom
-//     idx, ok := m[k]; if !ok { idx = len(list); list = append(list, v) }
+//
+//	idx, ok := m[k]; if !ok { idx = len(list); list = append(list, v) }
+//
 // numbers a new item by its position in a list and must record that number under the key
 // (m[k] = idx) on the miss branch; otherwise a second occurrence of k is appended again and the
 // list holds two items with one name (duplicate declarations in generated code).
